@@ -334,6 +334,8 @@ class File:
         return self.pos
 
     def seek(self, p, whence=0):
+        if isinstance(p, S):
+            p = conc(p.t)
         self.pos = p if whence == 0 else (self.pos + p if whence == 1 else len(self.data) + p)
         return self.pos
 
@@ -353,6 +355,8 @@ class File:
         return False
 
     def read(self, n=-1):
+        if isinstance(n, S):
+            n = conc(n.t)
         if self.size is None:
             vis = len(self.data)
         else:
@@ -439,6 +443,8 @@ class struct_:
 
 
 class mmap_:
+    PAGESIZE = 4096
+    ALLOCATIONGRANULARITY = 4096
     MAP_SHARED = 1
     MAP_PRIVATE = 2
     PROT_READ = 1
